@@ -362,6 +362,8 @@ def MdItem.commutes : MdItem → MdItem → Bool
   | .inject n v, .inject n' v' => n == n' && v == v'
   | .script n v, .script n' v' => n == n' && v == v'
   | .bad c, .bad c' => c == c'
+  | .bad c, .inject _ _ => c == "ValueError"     -- an inject_code conflict raises ValueError as well
+  | .inject _ _, .bad c => c == "ValueError"
   | _, _ => true
 
 def commutingAll : List MdItem → Bool
